@@ -81,8 +81,14 @@ def plan_alarms(rng, measure, ladder_len):
                 k = rng.randint(1, max(1, n // 20))
             elif u < 0.3:
                 k = rng.randint(max(1, n - n // 20), n)
-            elif u < 0.5 and marks:
+            elif u < 0.45 and marks:
                 k = max(1, rng.choice(marks) + rng.randint(1, 30))
+            elif u < 0.75 and marks:
+                # stage-stratified: pick a stage interval uniformly (so the short graph-construction stages are
+                # interrupted as often as the long peptide-calling stage), then a line inside it
+                bounds = sorted(set(marks)) + [n]
+                j = rng.randrange(len(bounds) - 1)
+                k = rng.randint(max(1, bounds[j]), max(1, bounds[j + 1]))
             else:
                 k = rng.randint(1, n)
             plan[f'{tx}#{att}'] = k
